@@ -21,8 +21,8 @@ import fx
 PROP = 'C09'
 
 INVARIANTS = [
-    'InQuantifier', 'MethodsAgree', 'SteppedIsLoop', 'CtorSound', 'CtorCompleteExceptBatched',
-    'CtorUnbatchedExact', 'FftSizeAdmissible', 'LoopLenY', 'NoClamp', 'BlocksTile', 'PrefixCorrect',
+    'InQuantifier', 'MethodsAgree', 'SteppedIsLoop', 'CtorSound', 'CtorComplete',
+    'CtorExact', 'FftSizeAdmissible', 'LoopLenY', 'NoClamp', 'BlocksTile', 'PrefixCorrect',
     'FinalSliceInRange', 'AsMatrixOK', 'RefSymmetric', 'ScatterDropsOnlyOutside', 'DtypeFlow', 'Emit',
 ]
 
@@ -193,7 +193,9 @@ def judge(case: dict, result: dict) -> tuple[list[tuple[str, str, dict]], dict]:
         for f in res['fails']:
             clause, what = f['clause'], f['what']
             if clause == 'constructor' and what == 'rejects_admissible':
-                if case['impl'] == 'Error' and case['why'] == 'fft_size_small' and _size(case['bs']) > 1:
+                # defect repaired by furax c737545 (number of bands taken from band_values.size): same key if it returns
+                if _size(case['bs']) > 1 and case['method'] == 'overlap_save' \
+                        and 2 * case['K'] - 1 <= case['fft'] < 2 * _size(case['bs']) * case['K'] - 1:
                     key = 'ctor:fft_size_rejected:batched_band'
                 else:
                     key = f"ctor:rejects:{case['method']}:fft={_fft_name(case)}:bs={case['bs']}"
@@ -201,9 +203,8 @@ def judge(case: dict, result: dict) -> tuple[list[tuple[str, str, dict]], dict]:
                 key = f"ctor:accepts:{case['method']}:fft={_fft_name(case)}:bs={case['bs']}"
             elif clause == 'apply':
                 exc = f['detail']['exc']['type']
-                pred = case['dt'].get(mode.replace(':x64', '_on').replace(':x32', '_off'))
-                if exc == 'TypeError' and pred == 'TypeError':
-                    # the transcribed dtype flow predicts exactly this failure
+                if exc == 'TypeError' and case['method'] == 'overlap_save' and mode == 'f32:x64':
+                    # defect repaired by furax 9d095d9 (default-dtype buffer): same key if it returns
                     key = f"{case['method']}:{mode}"
                 else:
                     key = f"apply_raises:{case['method']}:{mode}:{exc}"
@@ -323,7 +324,7 @@ def run(tier: str, seed: int) -> int:
     nontrivial = fx.nontrivial_count(
         [{k: c[k] for k in ('n', 'K', 'method', 'fft', 'xs', 'bs')} for c in picked],
         lambda c: c['K'] >= 2 and c['n'] >= 2 and c['method'] in ('dense', 'direct', 'fft', 'overlap_save'))
-    spec_dtype_defects = sum(1 for c in accepts for v in c['dt'].values() if v == 'TypeError')
+    spec_dtype_defects = sum(1 for c in accepts for k, v in c['dt'].items() if v != k[:3])
     spec_ctor_overreject = sum(1 for c in accepts if c['impl'] != 'ok')
     osc = [c for c in picked if c['ref'] == 'ok' and c['method'] == 'overlap_save']
     sample = max(osc, key=lambda c: (c['impl'] == 'ok', min(c['nblock'], 3), min(c['n'], 4), min(c['K'], 3), -len(c['xs'])))
@@ -345,7 +346,7 @@ def run(tier: str, seed: int) -> int:
         'violation_keys': key_counts,
         'design_level': {
             'invariants': INVARIANTS, 'distinct_states': gen.distinct, 'depth': gen.depth,
-            'transcribed_dtype_flow_raises_TypeError_in_(config,mode)s': spec_dtype_defects,
+            'transcribed_dtype_flow_differs_from_input_dtype_in_(config,mode)s': spec_dtype_defects,
             'transcribed_constructor_rejects_admissible_configs': spec_ctor_overreject,
         },
         'default_fft_size_drift': drift[:10],
